@@ -38,7 +38,7 @@ class Netmap(V.Family):
             self.tiers = {
                 "quick": dict(mc=[("NetmapMC.tla", "NetmapRing_quick.cfg")], mc_timeout=600,
                               sim=("NetmapMC.tla", "NetmapRing_sim.cfg", 40, 46), sim_keep=40, nrand=15, shards=8,
-                              env=dict(VERIF_NRING=20, VERIF_NSYS=150, VERIF_NLONG=8, VERIF_NLONGRING=30, VERIF_NMARATHON=2)),
+                              env=dict(VERIF_NRING=20, VERIF_NSYS=150, VERIF_NLONG=8, VERIF_NLONGRING=45, VERIF_NMARATHON=2)),
                 "thorough": dict(mc=[("NetmapMC.tla", "NetmapRing_thorough.cfg"), ("NetmapMC.tla", "NetmapSubs_quick.cfg")],
                                  mc_timeout=3000,
                                  sim=("NetmapMC.tla", "NetmapRing_sim.cfg", 400, 46), sim_keep=400, nrand=200, shards=16,
@@ -50,7 +50,7 @@ class Netmap(V.Family):
                 "quick": dict(mc=[("NetmapMC.tla", "Netmap_quick.cfg"), ("NetmapMC.tla", "NetmapDeep_quick.cfg"),
                                   ("NetmapMC.tla", "NetmapSubs_quick.cfg")], mc_timeout=900,
                               sim=("NetmapMC.tla", "Netmap_sim.cfg", 100, 31), sim_keep=100, nrand=100, shards=8,
-                              env=dict(VERIF_NRING=6, VERIF_NSYS=12, VERIF_NLONG=40, VERIF_NLONGRING=10, VERIF_NMARATHON=1)),
+                              env=dict(VERIF_NRING=6, VERIF_NSYS=12, VERIF_NLONG=60, VERIF_NLONGRING=12, VERIF_NMARATHON=1)),
                 "thorough": dict(mc=[("NetmapMC.tla", "Netmap_thorough.cfg"), ("NetmapMC.tla", "NetmapDeep_thorough.cfg"),
                                      ("NetmapMC.tla", "NetmapSubs_thorough.cfg")], mc_timeout=3000,
                                  sim=("NetmapMC.tla", "Netmap_sim.cfg", 2000, 31), sim_keep=2000, nrand=3000, shards=14,
